@@ -43,6 +43,6 @@ func main() {
 		},
 		Rule:        rule,
 		Assumptions: assumptions,
-		QuickBudget: 170 * time.Second, ThoroughBudget: 45 * time.Minute,
+		QuickBudget: 300 * time.Second, ThoroughBudget: 45 * time.Minute,
 	})
 }
